@@ -103,7 +103,30 @@ for _t in MACS:
     KIND[_t] = "mac"
 for _t in KWS:
     KIND[_t] = "kw"
+# "counter" family: many distinct originals through one cleaner, so that the substitute counters cross their
+# decimal / octet boundaries (10th, 100th, 256th issued address; host10, host100). Added after a seeded change
+# (next substitute from a lexicographic max) showed that a 7-address alphabet can never issue an 11th substitute.
+LONG_IPS = ["172.%d.%d.%d" % (16 + k // 200, k % 7, k % 200 + 1) for k in range(300)]
+LONG_HOSTS = ["n%03d%s" % (k, DOMAIN_SUFFIX) for k in range(120)]
+for _t in LONG_IPS:
+    KIND[_t] = "ip"
+for _t in LONG_HOSTS:
+    KIND[_t] = "host"
 INJECTIVE_KINDS = ("ip", "host")
+
+
+def long_history(kind, order):
+    toks = LONG_IPS if kind == "ip" else LONG_HOSTS
+    if order == "desc":
+        toks = list(reversed(toks))
+    hist = []
+    for k, t in enumerate(toks):
+        if order == "revisit" and k >= 2:
+            hist.append([[t, toks[k // 2]]])          # a new original together with an old one on one line
+        else:
+            hist.append([[t]])
+    hist.append([[toks[0], toks[len(toks) // 2]], [toks[-1]]])    # and everything must still map the same way
+    return hist
 TOKEN_FAMILY = {"ip": "ip", "host": "host", "mac": "mk", "kw": "mk"}
 
 FAMILIES = {
@@ -566,6 +589,9 @@ def depth1(fam, tier):
 
 def units(tier, seed):
     us = []
+    for kind in ("ip", "host"):
+        for order in ("asc", "desc", "revisit"):
+            us.append({"fam": "counter", "part": "longrun", "kind": kind, "order": order})
     for fam in FAMILY_ORDER:
         us.append({"fam": fam, "part": "depth1"})
         if BOUNDS[tier]["families"][fam]["depth"] < 2:
@@ -578,7 +604,7 @@ def units(tier, seed):
 
 
 def unit_weight(u):
-    w = {"ip": 4, "mixed": 3, "host": 2, "mk": 1}[u["fam"]]
+    w = {"ip": 4, "mixed": 3, "host": 2, "mk": 1, "counter": 5}[u["fam"]]
     return w if u["part"] == "subtree" else 0
 
 
@@ -595,6 +621,21 @@ def _fkey(clause, feats):
 def run_unit(unit, tier):
     res = Result()
     fam = unit["fam"]
+    if unit["part"] == "longrun":
+        hist = long_history(unit["kind"], unit["order"])
+        case = mk_case(hist)
+        vio = check_case(case)
+        res.case(nontrivial=True, outcome="long:%s:%d" % (unit["kind"], len(vio)), sample={"counter_family": unit, "events": len(hist)})
+        res.states += len(hist)
+        res.transitions += len(hist)
+        res.traces += 1
+        res.maxi("max_history_length", len(hist))
+        for clause, exp, got, f in vio:
+            k = f.get("violating_event_index", len(hist) - 1)
+            f = dict(f)
+            f.pop("violating_event_index", None)
+            res.violation(clause, mk_case(hist[:k + 1]), exp, got, f)
+        return res
     depth_bound = BOUNDS[tier]["families"][fam]["depth"]
     evs = menu(fam, tier)
     confirmed = {}
